@@ -349,6 +349,15 @@ class Context(MutableMapping[Identifier, Symbol]):
             if starred.origin in seen:
                 continue
 
+            # NOTE Builtin and extension modules have no Python source to expand
+            if starred.origin.suffix != ".py" or not starred.origin.is_file():
+                error.error(
+                    f"unable to expand {starred.code()!r}, the module "
+                    f"{starred.module_name!r} has no Python source",
+                    culprit=starred,
+                )
+                continue
+
             # Visit node
             with enter_file(starred.origin):
                 starred_ast = ast.parse(starred.origin.read_text())
